@@ -95,7 +95,9 @@ FL = [0.5, 1.5, 2.5, 2.54, 2.46, 2.449, 0.125, 2.675, 1234.5678, -0.5, 14.9, 15.
 
 
 def floatspecs():
-    return st.one_of(st.sampled_from(FL), st.floats(min_value=-1e4, max_value=1e4, allow_nan=False, width=64)).map(lambda x: ['f', repr(float(x))])
+    # one in eight is an instance of a float SUBCLASS (numpy.float64 is one): isinstance(x, float) holds, type(x) is float does not
+    return st.tuples(st.one_of(st.sampled_from(FL), st.floats(min_value=-1e4, max_value=1e4, allow_nan=False, width=64)), st.integers(0, 7)).map(
+        lambda t: ['c' if t[1] == 0 else 'f', repr(float(t[0]))])
 
 
 def structures():
@@ -121,7 +123,7 @@ def structures():
 def float_paths(spec, path=()):
     out = []
     t = spec[0]
-    if t == 'f':
+    if t in 'fc':
         out.append(path)
     elif t in 'tlSN':
         for i, x in enumerate(spec[1]):
@@ -138,7 +140,7 @@ def float_paths(spec, path=()):
 def nudge(spec, path, delta):
     """copy of spec with the float at path shifted by delta"""
     if not path:
-        return ['f', repr(float(spec[1]) + delta)]
+        return [spec[0], repr(float(spec[1]) + delta)]
     t, p = spec[0], path[0]
     if t == 'd':
         items = [list(kv) for kv in spec[1]]
